@@ -322,89 +322,92 @@ type List struct {
 func (_ List) isSExpr() {}
 
 func is_digit(ch__0 string) bool {
-    var ret391 bool
+    var ret385 bool
     switch ch__0 {
     case "0":
-        ret391 = true
+        ret385 = true
     case "1":
-        ret391 = true
+        ret385 = true
     case "2":
-        ret391 = true
+        ret385 = true
     case "3":
-        ret391 = true
+        ret385 = true
     case "4":
-        ret391 = true
+        ret385 = true
     case "5":
-        ret391 = true
+        ret385 = true
     case "6":
-        ret391 = true
+        ret385 = true
     case "7":
-        ret391 = true
+        ret385 = true
     case "8":
-        ret391 = true
+        ret385 = true
     case "9":
-        ret391 = true
+        ret385 = true
     default:
-        ret391 = false
+        ret385 = false
     }
-    return ret391
+    return ret385
 }
 
 func digit_value(ch__1 string) int32 {
-    var ret392 int32
+    var ret386 int32
     switch ch__1 {
     case "0":
-        ret392 = 0
+        ret386 = 0
     case "1":
-        ret392 = 1
+        ret386 = 1
     case "2":
-        ret392 = 2
+        ret386 = 2
     case "3":
-        ret392 = 3
+        ret386 = 3
     case "4":
-        ret392 = 4
+        ret386 = 4
     case "5":
-        ret392 = 5
+        ret386 = 5
     case "6":
-        ret392 = 6
+        ret386 = 6
     case "7":
-        ret392 = 7
+        ret386 = 7
     case "8":
-        ret392 = 8
+        ret386 = 8
     case "9":
-        ret392 = 9
+        ret386 = 9
     default:
-        ret392 = 0
+        ret386 = 0
     }
-    return ret392
+    return ret386
 }
 
 func is_int_text(text__2 string) bool {
-    var ret393 bool
+    var ret387 bool
     var len__3 int32 = string_len(text__2)
     var mtmp0 bool = len__3 == 0
     switch mtmp0 {
     case true:
-        ret393 = false
+        ret387 = false
     case false:
         var i__4 *ref_int32_x = ref__Ref_int32(0)
         var saw_digit__5 *ref_bool_x = ref__Ref_bool(false)
         var ok__6 *ref_bool_x = ref__Ref_bool(true)
         var started__7 *ref_bool_x = ref__Ref_bool(false)
-        var cond394 bool
+        var cond388 bool
         for {
             var t170 bool = ref_get__Ref_bool(ok__6)
-            var t172 int32 = ref_get__Ref_int32(i__4)
-            var t171 bool = t172 < len__3
-            cond394 = t170 && t171
-            if !cond394 {
+            if t170 {
+                var t171 int32 = ref_get__Ref_int32(i__4)
+                cond388 = t171 < len__3
+            } else {
+                cond388 = false
+            }
+            if !cond388 {
                 break
             }
-            var t173 int32 = ref_get__Ref_int32(i__4)
-            var ch__8 string = string_get(text__2, t173)
-            var t174 bool = ref_get__Ref_bool(started__7)
+            var t172 int32 = ref_get__Ref_int32(i__4)
+            var ch__8 string = string_get(text__2, t172)
+            var t173 bool = ref_get__Ref_bool(started__7)
             var mtmp1 Tuple2_bool_string = Tuple2_bool_string{
-                _0: t174,
+                _0: t173,
                 _1: ch__8,
             }
             var x2 bool = mtmp1._0
@@ -418,17 +421,17 @@ func is_int_text(text__2 string) bool {
                     case true:
                         ref_set__Ref_bool(started__7, true)
                         ref_set__Ref_bool(saw_digit__5, true)
-                        var t176 int32 = ref_get__Ref_int32(i__4)
-                        var t175 int32 = t176 + 1
-                        ref_set__Ref_int32(i__4, t175)
+                        var t175 int32 = ref_get__Ref_int32(i__4)
+                        var t174 int32 = t175 + 1
+                        ref_set__Ref_int32(i__4, t174)
                     case false:
                         ref_set__Ref_bool(ok__6, false)
                     }
                 case false:
                     ref_set__Ref_bool(started__7, true)
-                    var t178 int32 = ref_get__Ref_int32(i__4)
-                    var t177 int32 = t178 + 1
-                    ref_set__Ref_int32(i__4, t177)
+                    var t177 int32 = ref_get__Ref_int32(i__4)
+                    var t176 int32 = t177 + 1
+                    ref_set__Ref_int32(i__4, t176)
                 }
             default:
                 var mtmp8 bool = is_digit(ch__8)
@@ -436,40 +439,43 @@ func is_int_text(text__2 string) bool {
                 case true:
                     ref_set__Ref_bool(started__7, true)
                     ref_set__Ref_bool(saw_digit__5, true)
-                    var t180 int32 = ref_get__Ref_int32(i__4)
-                    var t179 int32 = t180 + 1
-                    ref_set__Ref_int32(i__4, t179)
+                    var t179 int32 = ref_get__Ref_int32(i__4)
+                    var t178 int32 = t179 + 1
+                    ref_set__Ref_int32(i__4, t178)
                 case false:
                     ref_set__Ref_bool(ok__6, false)
                 }
             }
         }
-        var t181 bool = ref_get__Ref_bool(ok__6)
-        var t182 bool = ref_get__Ref_bool(saw_digit__5)
-        ret393 = t181 && t182
+        var t180 bool = ref_get__Ref_bool(ok__6)
+        if t180 {
+            ret387 = ref_get__Ref_bool(saw_digit__5)
+        } else {
+            ret387 = false
+        }
     }
-    return ret393
+    return ret387
 }
 
 func parse_int32(text__9 string) int32 {
-    var ret395 int32
+    var ret389 int32
     var len__10 int32 = string_len(text__9)
     var i__11 *ref_int32_x = ref__Ref_int32(0)
     var negative__12 *ref_bool_x = ref__Ref_bool(false)
     var started__13 *ref_bool_x = ref__Ref_bool(false)
     var acc__14 *ref_int32_x = ref__Ref_int32(0)
-    var cond396 bool
+    var cond390 bool
     for {
-        var t183 int32 = ref_get__Ref_int32(i__11)
-        cond396 = t183 < len__10
-        if !cond396 {
+        var t181 int32 = ref_get__Ref_int32(i__11)
+        cond390 = t181 < len__10
+        if !cond390 {
             break
         }
-        var t184 int32 = ref_get__Ref_int32(i__11)
-        var ch__15 string = string_get(text__9, t184)
-        var t185 bool = ref_get__Ref_bool(started__13)
+        var t182 int32 = ref_get__Ref_int32(i__11)
+        var ch__15 string = string_get(text__9, t182)
+        var t183 bool = ref_get__Ref_bool(started__13)
         var mtmp12 Tuple2_bool_string = Tuple2_bool_string{
-            _0: t185,
+            _0: t183,
             _1: ch__15,
         }
         var x13 bool = mtmp12._0
@@ -480,87 +486,90 @@ func parse_int32(text__9 string) int32 {
             case true:
                 ref_set__Ref_bool(started__13, true)
                 var d__16 int32 = digit_value(ch__15)
-                var t188 int32 = ref_get__Ref_int32(acc__14)
-                var t187 int32 = t188 * 10
-                var t186 int32 = t187 + d__16
-                ref_set__Ref_int32(acc__14, t186)
-                var t190 int32 = ref_get__Ref_int32(i__11)
-                var t189 int32 = t190 + 1
-                ref_set__Ref_int32(i__11, t189)
+                var t186 int32 = ref_get__Ref_int32(acc__14)
+                var t185 int32 = t186 * 10
+                var t184 int32 = t185 + d__16
+                ref_set__Ref_int32(acc__14, t184)
+                var t188 int32 = ref_get__Ref_int32(i__11)
+                var t187 int32 = t188 + 1
+                ref_set__Ref_int32(i__11, t187)
             case false:
                 ref_set__Ref_bool(started__13, true)
                 ref_set__Ref_bool(negative__12, true)
-                var t192 int32 = ref_get__Ref_int32(i__11)
-                var t191 int32 = t192 + 1
-                ref_set__Ref_int32(i__11, t191)
+                var t190 int32 = ref_get__Ref_int32(i__11)
+                var t189 int32 = t190 + 1
+                ref_set__Ref_int32(i__11, t189)
             }
         default:
             ref_set__Ref_bool(started__13, true)
             var d__16 int32 = digit_value(ch__15)
-            var t195 int32 = ref_get__Ref_int32(acc__14)
-            var t194 int32 = t195 * 10
-            var t193 int32 = t194 + d__16
-            ref_set__Ref_int32(acc__14, t193)
-            var t197 int32 = ref_get__Ref_int32(i__11)
-            var t196 int32 = t197 + 1
-            ref_set__Ref_int32(i__11, t196)
+            var t193 int32 = ref_get__Ref_int32(acc__14)
+            var t192 int32 = t193 * 10
+            var t191 int32 = t192 + d__16
+            ref_set__Ref_int32(acc__14, t191)
+            var t195 int32 = ref_get__Ref_int32(i__11)
+            var t194 int32 = t195 + 1
+            ref_set__Ref_int32(i__11, t194)
         }
     }
     var mtmp22 bool = ref_get__Ref_bool(negative__12)
     switch mtmp22 {
     case true:
-        var t198 int32 = ref_get__Ref_int32(acc__14)
-        ret395 = 0 - t198
+        var t196 int32 = ref_get__Ref_int32(acc__14)
+        ret389 = 0 - t196
     case false:
-        ret395 = ref_get__Ref_int32(acc__14)
+        ret389 = ref_get__Ref_int32(acc__14)
     }
-    return ret395
+    return ret389
 }
 
 func is_delim(ch__17 string) bool {
-    var ret397 bool
+    var ret391 bool
     switch ch__17 {
     case "(":
-        ret397 = true
+        ret391 = true
     case ")":
-        ret397 = true
+        ret391 = true
     case " ":
-        ret397 = true
+        ret391 = true
     default:
-        ret397 = false
+        ret391 = false
     }
-    return ret397
+    return ret391
 }
 
 func lex_atom(source__18 string, start__19 int32) Tuple2_Token_int32 {
-    var ret398 Tuple2_Token_int32
+    var ret392 Tuple2_Token_int32
     var len__20 int32 = string_len(source__18)
     var text__21 *ref_string_x = ref__Ref_string("")
     var i__22 *ref_int32_x = ref__Ref_int32(start__19)
     var done__23 *ref_bool_x = ref__Ref_bool(false)
-    var cond399 bool
+    var cond393 bool
     for {
-        var t200 bool = ref_get__Ref_bool(done__23)
-        var t199 bool = !t200
-        var t202 int32 = ref_get__Ref_int32(i__22)
-        var t201 bool = t202 < len__20
-        cond399 = t199 && t201
-        if !cond399 {
+        var t198 bool = ref_get__Ref_bool(done__23)
+        var t197 bool = !t198
+        if t197 {
+            var t199 int32 = ref_get__Ref_int32(i__22)
+            cond393 = t199 < len__20
+        } else {
+            cond393 = false
+        }
+        if !cond393 {
             break
         }
-        var t203 int32 = ref_get__Ref_int32(i__22)
-        var ch__24 string = string_get(source__18, t203)
+        var t200 int32 = ref_get__Ref_int32(i__22)
+        var ch__24 string = string_get(source__18, t200)
         var mtmp23 bool = is_delim(ch__24)
         switch mtmp23 {
         case true:
             ref_set__Ref_bool(done__23, true)
         case false:
-            var t205 string = ref_get__Ref_string(text__21)
-            var t204 string = t205 + ch__24
-            ref_set__Ref_string(text__21, t204)
-            var t207 int32 = ref_get__Ref_int32(i__22)
-            var t206 int32 = t207 + 1
-            ref_set__Ref_int32(i__22, t206)
+            var t202 string = ref_get__Ref_string(text__21)
+            var t201 string = t202 + ch__24
+            ref_set__Ref_string(text__21, t201)
+            var t204 int32 = ref_get__Ref_int32(i__22)
+            var t203 int32 = t204 + 1
+            ref_set__Ref_int32(i__22, t203)
         }
     }
     var atom__25 string = ref_get__Ref_string(text__21)
@@ -578,9 +587,9 @@ func lex_atom(source__18 string, start__19 int32) Tuple2_Token_int32 {
         var mtmp26 bool = is_int_text(atom__25)
         switch mtmp26 {
         case true:
-            var t208 int32 = parse_int32(atom__25)
+            var t205 int32 = parse_int32(atom__25)
             token__26 = Token_Int{
-                _0: t208,
+                _0: t205,
             }
         case false:
             token__26 = Token_Sym{
@@ -588,609 +597,615 @@ func lex_atom(source__18 string, start__19 int32) Tuple2_Token_int32 {
             }
         }
     }
-    var t209 int32 = ref_get__Ref_int32(i__22)
-    ret398 = Tuple2_Token_int32{
+    var t206 int32 = ref_get__Ref_int32(i__22)
+    ret392 = Tuple2_Token_int32{
         _0: token__26,
-        _1: t209,
+        _1: t206,
     }
-    return ret398
+    return ret392
 }
 
 func lex(source__27 string) []Token {
-    var ret400 []Token
+    var ret394 []Token
     var len__28 int32 = string_len(source__27)
     var toks0__29 []Token = nil
     var toks__30 *ref_vec_token_x = ref__Ref_Vec_Token(toks0__29)
     var i__31 *ref_int32_x = ref__Ref_int32(0)
-    var cond401 bool
+    var cond395 bool
     for {
-        var t210 int32 = ref_get__Ref_int32(i__31)
-        cond401 = t210 < len__28
-        if !cond401 {
+        var t207 int32 = ref_get__Ref_int32(i__31)
+        cond395 = t207 < len__28
+        if !cond395 {
             break
         }
-        var t211 int32 = ref_get__Ref_int32(i__31)
-        var ch__32 string = string_get(source__27, t211)
+        var t208 int32 = ref_get__Ref_int32(i__31)
+        var ch__32 string = string_get(source__27, t208)
         switch ch__32 {
         case "(":
-            var t213 []Token = ref_get__Ref_Vec_Token(toks__30)
-            var t214 Token = LParen{}
-            var t212 []Token = append(t213, t214)
-            ref_set__Ref_Vec_Token(toks__30, t212)
-            var t216 int32 = ref_get__Ref_int32(i__31)
-            var t215 int32 = t216 + 1
-            ref_set__Ref_int32(i__31, t215)
+            var t210 []Token = ref_get__Ref_Vec_Token(toks__30)
+            var t211 Token = LParen{}
+            var t209 []Token = append(t210, t211)
+            ref_set__Ref_Vec_Token(toks__30, t209)
+            var t213 int32 = ref_get__Ref_int32(i__31)
+            var t212 int32 = t213 + 1
+            ref_set__Ref_int32(i__31, t212)
         case ")":
-            var t218 []Token = ref_get__Ref_Vec_Token(toks__30)
-            var t219 Token = RParen{}
-            var t217 []Token = append(t218, t219)
-            ref_set__Ref_Vec_Token(toks__30, t217)
-            var t221 int32 = ref_get__Ref_int32(i__31)
-            var t220 int32 = t221 + 1
-            ref_set__Ref_int32(i__31, t220)
+            var t215 []Token = ref_get__Ref_Vec_Token(toks__30)
+            var t216 Token = RParen{}
+            var t214 []Token = append(t215, t216)
+            ref_set__Ref_Vec_Token(toks__30, t214)
+            var t218 int32 = ref_get__Ref_int32(i__31)
+            var t217 int32 = t218 + 1
+            ref_set__Ref_int32(i__31, t217)
         case " ":
-            var t223 int32 = ref_get__Ref_int32(i__31)
-            var t222 int32 = t223 + 1
-            ref_set__Ref_int32(i__31, t222)
+            var t220 int32 = ref_get__Ref_int32(i__31)
+            var t219 int32 = t220 + 1
+            ref_set__Ref_int32(i__31, t219)
         default:
-            var t224 int32 = ref_get__Ref_int32(i__31)
-            var mtmp29 Tuple2_Token_int32 = lex_atom(source__27, t224)
+            var t221 int32 = ref_get__Ref_int32(i__31)
+            var mtmp29 Tuple2_Token_int32 = lex_atom(source__27, t221)
             var x30 Token = mtmp29._0
             var x31 int32 = mtmp29._1
             var next__34 int32 = x31
             var tok__33 Token = x30
-            var t226 []Token = ref_get__Ref_Vec_Token(toks__30)
-            var t225 []Token = append(t226, tok__33)
-            ref_set__Ref_Vec_Token(toks__30, t225)
+            var t223 []Token = ref_get__Ref_Vec_Token(toks__30)
+            var t222 []Token = append(t223, tok__33)
+            ref_set__Ref_Vec_Token(toks__30, t222)
             ref_set__Ref_int32(i__31, next__34)
         }
     }
-    ret400 = ref_get__Ref_Vec_Token(toks__30)
-    return ret400
+    ret394 = ref_get__Ref_Vec_Token(toks__30)
+    return ret394
 }
 
 func env_lookup(env__35 []Binding, name__36 string) Value {
-    var ret402 Value
-    var t228 int32 = int32(len(env__35))
-    var t227 int32 = t228 - 1
-    var i__37 *ref_int32_x = ref__Ref_int32(t227)
-    var t229 Value = Nil{}
-    var result__38 *ref_value_x = ref__Ref_Value(t229)
+    var ret396 Value
+    var t225 int32 = int32(len(env__35))
+    var t224 int32 = t225 - 1
+    var i__37 *ref_int32_x = ref__Ref_int32(t224)
+    var t226 Value = Nil{}
+    var result__38 *ref_value_x = ref__Ref_Value(t226)
     var done__39 *ref_bool_x = ref__Ref_bool(false)
-    var cond403 bool
+    var cond397 bool
     for {
-        var t231 bool = ref_get__Ref_bool(done__39)
-        var t230 bool = !t231
-        var t233 int32 = ref_get__Ref_int32(i__37)
-        var t232 bool = t233 >= 0
-        cond403 = t230 && t232
-        if !cond403 {
+        var t228 bool = ref_get__Ref_bool(done__39)
+        var t227 bool = !t228
+        if t227 {
+            var t229 int32 = ref_get__Ref_int32(i__37)
+            cond397 = t229 >= 0
+        } else {
+            cond397 = false
+        }
+        if !cond397 {
             break
         }
-        var t234 int32 = ref_get__Ref_int32(i__37)
-        var binding__40 Binding = env__35[t234]
-        var t236 string = binding__40.name
-        var t235 bool = t236 == name__36
-        if t235 {
-            var t237 Value = binding__40.value
-            ref_set__Ref_Value(result__38, t237)
+        var t230 int32 = ref_get__Ref_int32(i__37)
+        var binding__40 Binding = env__35[t230]
+        var t232 string = binding__40.name
+        var t231 bool = t232 == name__36
+        if t231 {
+            var t233 Value = binding__40.value
+            ref_set__Ref_Value(result__38, t233)
             ref_set__Ref_bool(done__39, true)
         } else {
-            var t239 int32 = ref_get__Ref_int32(i__37)
-            var t238 int32 = t239 - 1
-            ref_set__Ref_int32(i__37, t238)
+            var t235 int32 = ref_get__Ref_int32(i__37)
+            var t234 int32 = t235 - 1
+            ref_set__Ref_int32(i__37, t234)
         }
     }
-    ret402 = ref_get__Ref_Value(result__38)
-    return ret402
+    ret396 = ref_get__Ref_Value(result__38)
+    return ret396
 }
 
 func lookup(local__41 []Binding, global__42 []Binding, name__43 string) Value {
-    var ret404 Value
+    var ret398 Value
     var mtmp36 Value = env_lookup(local__41, name__43)
     switch mtmp36 := mtmp36.(type) {
     case Value_Int:
         var other__44 Value = mtmp36
-        ret404 = other__44
+        ret398 = other__44
     case Value_Bool:
         var other__44 Value = mtmp36
-        ret404 = other__44
+        ret398 = other__44
     case Func:
         var other__44 Value = mtmp36
-        ret404 = other__44
+        ret398 = other__44
     case Nil:
-        ret404 = env_lookup(global__42, name__43)
+        ret398 = env_lookup(global__42, name__43)
     }
-    return ret404
+    return ret398
 }
 
 func parse_list(tokens__45 []Token, start__46 int32) Tuple2_Vec_SExpr_int32 {
-    var ret405 Tuple2_Vec_SExpr_int32
+    var ret399 Tuple2_Vec_SExpr_int32
     var acc__47 []SExpr = nil
     var exprs__48 *ref_vec_sexpr_x = ref__Ref_Vec_SExpr(acc__47)
     var i__49 *ref_int32_x = ref__Ref_int32(start__46)
     var done__50 *ref_bool_x = ref__Ref_bool(false)
-    var cond406 bool
+    var cond400 bool
     for {
-        var t241 bool = ref_get__Ref_bool(done__50)
-        var t240 bool = !t241
-        var t243 int32 = ref_get__Ref_int32(i__49)
-        var t244 int32 = int32(len(tokens__45))
-        var t242 bool = t243 < t244
-        cond406 = t240 && t242
-        if !cond406 {
+        var t237 bool = ref_get__Ref_bool(done__50)
+        var t236 bool = !t237
+        if t236 {
+            var t238 int32 = ref_get__Ref_int32(i__49)
+            var t239 int32 = int32(len(tokens__45))
+            cond400 = t238 < t239
+        } else {
+            cond400 = false
+        }
+        if !cond400 {
             break
         }
-        var t245 int32 = ref_get__Ref_int32(i__49)
-        var mtmp40 Token = tokens__45[t245]
+        var t240 int32 = ref_get__Ref_int32(i__49)
+        var mtmp40 Token = tokens__45[t240]
         switch mtmp40.(type) {
         case LParen:
-            var t246 int32 = ref_get__Ref_int32(i__49)
-            var mtmp44 Tuple2_SExpr_int32 = parse_expr(tokens__45, t246)
+            var t241 int32 = ref_get__Ref_int32(i__49)
+            var mtmp44 Tuple2_SExpr_int32 = parse_expr(tokens__45, t241)
             var x45 SExpr = mtmp44._0
             var x46 int32 = mtmp44._1
             var next__52 int32 = x46
             var expr__51 SExpr = x45
-            var t248 []SExpr = ref_get__Ref_Vec_SExpr(exprs__48)
-            var t247 []SExpr = append(t248, expr__51)
-            ref_set__Ref_Vec_SExpr(exprs__48, t247)
+            var t243 []SExpr = ref_get__Ref_Vec_SExpr(exprs__48)
+            var t242 []SExpr = append(t243, expr__51)
+            ref_set__Ref_Vec_SExpr(exprs__48, t242)
             ref_set__Ref_int32(i__49, next__52)
         case RParen:
             ref_set__Ref_bool(done__50, true)
-            var t250 int32 = ref_get__Ref_int32(i__49)
-            var t249 int32 = t250 + 1
-            ref_set__Ref_int32(i__49, t249)
+            var t245 int32 = ref_get__Ref_int32(i__49)
+            var t244 int32 = t245 + 1
+            ref_set__Ref_int32(i__49, t244)
         case Token_Sym:
-            var t251 int32 = ref_get__Ref_int32(i__49)
-            var mtmp49 Tuple2_SExpr_int32 = parse_expr(tokens__45, t251)
+            var t246 int32 = ref_get__Ref_int32(i__49)
+            var mtmp49 Tuple2_SExpr_int32 = parse_expr(tokens__45, t246)
             var x50 SExpr = mtmp49._0
             var x51 int32 = mtmp49._1
             var next__52 int32 = x51
             var expr__51 SExpr = x50
-            var t253 []SExpr = ref_get__Ref_Vec_SExpr(exprs__48)
-            var t252 []SExpr = append(t253, expr__51)
-            ref_set__Ref_Vec_SExpr(exprs__48, t252)
+            var t248 []SExpr = ref_get__Ref_Vec_SExpr(exprs__48)
+            var t247 []SExpr = append(t248, expr__51)
+            ref_set__Ref_Vec_SExpr(exprs__48, t247)
             ref_set__Ref_int32(i__49, next__52)
         case Token_Int:
-            var t254 int32 = ref_get__Ref_int32(i__49)
-            var mtmp53 Tuple2_SExpr_int32 = parse_expr(tokens__45, t254)
+            var t249 int32 = ref_get__Ref_int32(i__49)
+            var mtmp53 Tuple2_SExpr_int32 = parse_expr(tokens__45, t249)
             var x54 SExpr = mtmp53._0
             var x55 int32 = mtmp53._1
             var next__52 int32 = x55
             var expr__51 SExpr = x54
-            var t256 []SExpr = ref_get__Ref_Vec_SExpr(exprs__48)
-            var t255 []SExpr = append(t256, expr__51)
-            ref_set__Ref_Vec_SExpr(exprs__48, t255)
+            var t251 []SExpr = ref_get__Ref_Vec_SExpr(exprs__48)
+            var t250 []SExpr = append(t251, expr__51)
+            ref_set__Ref_Vec_SExpr(exprs__48, t250)
             ref_set__Ref_int32(i__49, next__52)
         case Token_Bool:
-            var t257 int32 = ref_get__Ref_int32(i__49)
-            var mtmp57 Tuple2_SExpr_int32 = parse_expr(tokens__45, t257)
+            var t252 int32 = ref_get__Ref_int32(i__49)
+            var mtmp57 Tuple2_SExpr_int32 = parse_expr(tokens__45, t252)
             var x58 SExpr = mtmp57._0
             var x59 int32 = mtmp57._1
             var next__52 int32 = x59
             var expr__51 SExpr = x58
-            var t259 []SExpr = ref_get__Ref_Vec_SExpr(exprs__48)
-            var t258 []SExpr = append(t259, expr__51)
-            ref_set__Ref_Vec_SExpr(exprs__48, t258)
+            var t254 []SExpr = ref_get__Ref_Vec_SExpr(exprs__48)
+            var t253 []SExpr = append(t254, expr__51)
+            ref_set__Ref_Vec_SExpr(exprs__48, t253)
             ref_set__Ref_int32(i__49, next__52)
         }
     }
-    var t260 []SExpr = ref_get__Ref_Vec_SExpr(exprs__48)
-    var t261 int32 = ref_get__Ref_int32(i__49)
-    ret405 = Tuple2_Vec_SExpr_int32{
-        _0: t260,
-        _1: t261,
+    var t255 []SExpr = ref_get__Ref_Vec_SExpr(exprs__48)
+    var t256 int32 = ref_get__Ref_int32(i__49)
+    ret399 = Tuple2_Vec_SExpr_int32{
+        _0: t255,
+        _1: t256,
     }
-    return ret405
+    return ret399
 }
 
 func parse_expr(tokens__53 []Token, start__54 int32) Tuple2_SExpr_int32 {
-    var ret407 Tuple2_SExpr_int32
+    var ret401 Tuple2_SExpr_int32
     var mtmp62 Token = tokens__53[start__54]
     switch mtmp62 := mtmp62.(type) {
     case LParen:
-        var t262 int32 = start__54 + 1
-        var mtmp66 Tuple2_Vec_SExpr_int32 = parse_list(tokens__53, t262)
+        var t257 int32 = start__54 + 1
+        var mtmp66 Tuple2_Vec_SExpr_int32 = parse_list(tokens__53, t257)
         var x67 []SExpr = mtmp66._0
         var x68 int32 = mtmp66._1
         var next__56 int32 = x68
         var items__55 []SExpr = x67
-        var t263 SExpr = List{
+        var t258 SExpr = List{
             _0: items__55,
         }
-        ret407 = Tuple2_SExpr_int32{
-            _0: t263,
+        ret401 = Tuple2_SExpr_int32{
+            _0: t258,
             _1: next__56,
         }
     case RParen:
-        var t264 SExpr = SExpr_Sym{
+        var t259 SExpr = SExpr_Sym{
             _0: ")",
         }
-        var t265 int32 = start__54 + 1
-        ret407 = Tuple2_SExpr_int32{
-            _0: t264,
-            _1: t265,
+        var t260 int32 = start__54 + 1
+        ret401 = Tuple2_SExpr_int32{
+            _0: t259,
+            _1: t260,
         }
     case Token_Sym:
         var x63 string = mtmp62._0
         var name__59 string = x63
-        var t266 SExpr = SExpr_Sym{
+        var t261 SExpr = SExpr_Sym{
             _0: name__59,
         }
-        var t267 int32 = start__54 + 1
-        ret407 = Tuple2_SExpr_int32{
-            _0: t266,
-            _1: t267,
+        var t262 int32 = start__54 + 1
+        ret401 = Tuple2_SExpr_int32{
+            _0: t261,
+            _1: t262,
         }
     case Token_Int:
         var x64 int32 = mtmp62._0
         var n__58 int32 = x64
-        var t268 SExpr = SExpr_Int{
+        var t263 SExpr = SExpr_Int{
             _0: n__58,
         }
-        var t269 int32 = start__54 + 1
-        ret407 = Tuple2_SExpr_int32{
-            _0: t268,
-            _1: t269,
+        var t264 int32 = start__54 + 1
+        ret401 = Tuple2_SExpr_int32{
+            _0: t263,
+            _1: t264,
         }
     case Token_Bool:
         var x65 bool = mtmp62._0
         var b__57 bool = x65
-        var t270 SExpr = SExpr_Bool{
+        var t265 SExpr = SExpr_Bool{
             _0: b__57,
         }
-        var t271 int32 = start__54 + 1
-        ret407 = Tuple2_SExpr_int32{
-            _0: t270,
-            _1: t271,
+        var t266 int32 = start__54 + 1
+        ret401 = Tuple2_SExpr_int32{
+            _0: t265,
+            _1: t266,
         }
     }
-    return ret407
+    return ret401
 }
 
 func parse_program(tokens__60 []Token) []SExpr {
-    var ret408 []SExpr
+    var ret402 []SExpr
     var i__61 *ref_int32_x = ref__Ref_int32(0)
     var acc__62 []SExpr = nil
     var exprs__63 *ref_vec_sexpr_x = ref__Ref_Vec_SExpr(acc__62)
-    var cond409 bool
+    var cond403 bool
     for {
-        var t272 int32 = ref_get__Ref_int32(i__61)
-        var t273 int32 = int32(len(tokens__60))
-        cond409 = t272 < t273
-        if !cond409 {
+        var t267 int32 = ref_get__Ref_int32(i__61)
+        var t268 int32 = int32(len(tokens__60))
+        cond403 = t267 < t268
+        if !cond403 {
             break
         }
-        var t274 int32 = ref_get__Ref_int32(i__61)
-        var mtmp69 Tuple2_SExpr_int32 = parse_expr(tokens__60, t274)
+        var t269 int32 = ref_get__Ref_int32(i__61)
+        var mtmp69 Tuple2_SExpr_int32 = parse_expr(tokens__60, t269)
         var x70 SExpr = mtmp69._0
         var x71 int32 = mtmp69._1
         var next__65 int32 = x71
         var expr__64 SExpr = x70
-        var t276 []SExpr = ref_get__Ref_Vec_SExpr(exprs__63)
-        var t275 []SExpr = append(t276, expr__64)
-        ref_set__Ref_Vec_SExpr(exprs__63, t275)
+        var t271 []SExpr = ref_get__Ref_Vec_SExpr(exprs__63)
+        var t270 []SExpr = append(t271, expr__64)
+        ref_set__Ref_Vec_SExpr(exprs__63, t270)
         ref_set__Ref_int32(i__61, next__65)
     }
-    ret408 = ref_get__Ref_Vec_SExpr(exprs__63)
-    return ret408
+    ret402 = ref_get__Ref_Vec_SExpr(exprs__63)
+    return ret402
 }
 
 func value_to_string(value__66 Value) string {
-    var ret410 string
+    var ret404 string
     switch value__66 := value__66.(type) {
     case Value_Int:
         var x74 int32 = value__66._0
         var n__67 int32 = x74
-        ret410 = int32_to_string(n__67)
+        ret404 = int32_to_string(n__67)
     case Value_Bool:
         var x75 bool = value__66._0
         var b__68 bool = x75
-        ret410 = bool_to_string(b__68)
+        ret404 = bool_to_string(b__68)
     case Func:
-        ret410 = "<lambda>"
+        ret404 = "<lambda>"
     case Nil:
-        ret410 = "nil"
+        ret404 = "nil"
     }
-    return ret410
+    return ret404
 }
 
 func truthy(value__69 Value) bool {
-    var ret411 bool
+    var ret405 bool
     switch value__69 := value__69.(type) {
     case Value_Int:
         var x77 int32 = value__69._0
         var n__71 int32 = x77
-        ret411 = n__71 != 0
+        ret405 = n__71 != 0
     case Value_Bool:
         var x78 bool = value__69._0
         var b__70 bool = x78
-        ret411 = b__70
+        ret405 = b__70
     case Func:
-        ret411 = true
+        ret405 = true
     case Nil:
-        ret411 = false
+        ret405 = false
     }
-    return ret411
+    return ret405
 }
 
 func eval(expr__72 SExpr, local__73 []Binding, global__74 *ref_vec_binding_x) Value {
-    var ret412 Value
+    var ret406 Value
     switch expr__72 := expr__72.(type) {
     case SExpr_Int:
         var x80 int32 = expr__72._0
         var n__75 int32 = x80
-        ret412 = Value_Int{
+        ret406 = Value_Int{
             _0: n__75,
         }
     case SExpr_Bool:
         var x81 bool = expr__72._0
         var b__76 bool = x81
-        ret412 = Value_Bool{
+        ret406 = Value_Bool{
             _0: b__76,
         }
     case SExpr_Sym:
         var x82 string = expr__72._0
         var name__77 string = x82
-        var t277 []Binding = ref_get__Ref_Vec_Binding(global__74)
-        ret412 = lookup(local__73, t277, name__77)
+        var t272 []Binding = ref_get__Ref_Vec_Binding(global__74)
+        ret406 = lookup(local__73, t272, name__77)
     case List:
         var x83 []SExpr = expr__72._0
         var items__78 []SExpr = x83
-        ret412 = eval_list(items__78, local__73, global__74)
+        ret406 = eval_list(items__78, local__73, global__74)
     }
-    return ret412
+    return ret406
 }
 
 func eval_list(items__79 []SExpr, local__80 []Binding, global__81 *ref_vec_binding_x) Value {
-    var ret413 Value
-    var t279 int32 = int32(len(items__79))
-    var t278 bool = t279 == 0
-    if t278 {
-        ret413 = Nil{}
+    var ret407 Value
+    var t274 int32 = int32(len(items__79))
+    var t273 bool = t274 == 0
+    if t273 {
+        ret407 = Nil{}
     } else {
         var head__82 SExpr = items__79[0]
         switch head__82 := head__82.(type) {
         case SExpr_Int:
             var f__84 Value = eval(head__82, local__80, global__81)
             var args__85 []Value = eval_args(items__79, 1, local__80, global__81)
-            ret413 = apply(f__84, args__85, global__81)
+            ret407 = apply(f__84, args__85, global__81)
         case SExpr_Bool:
             var f__84 Value = eval(head__82, local__80, global__81)
             var args__85 []Value = eval_args(items__79, 1, local__80, global__81)
-            ret413 = apply(f__84, args__85, global__81)
+            ret407 = apply(f__84, args__85, global__81)
         case SExpr_Sym:
             var x86 string = head__82._0
             var name__83 string = x86
-            ret413 = eval_list_sym(name__83, items__79, local__80, global__81)
+            ret407 = eval_list_sym(name__83, items__79, local__80, global__81)
         case List:
             var f__84 Value = eval(head__82, local__80, global__81)
             var args__85 []Value = eval_args(items__79, 1, local__80, global__81)
-            ret413 = apply(f__84, args__85, global__81)
+            ret407 = apply(f__84, args__85, global__81)
         }
     }
-    return ret413
+    return ret407
 }
 
 func eval_list_sym(name__86 string, items__87 []SExpr, local__88 []Binding, global__89 *ref_vec_binding_x) Value {
-    var ret414 Value
+    var ret408 Value
     switch name__86 {
     case "begin":
-        ret414 = eval_begin(items__87, 1, local__88, global__89)
+        ret408 = eval_begin(items__87, 1, local__88, global__89)
     case "define":
-        var t280 int32 = int32(len(items__87))
-        var mtmp88 bool = t280 == 3
+        var t275 int32 = int32(len(items__87))
+        var mtmp88 bool = t275 == 3
         switch mtmp88 {
         case true:
             var mtmp89 SExpr = items__87[1]
             switch mtmp89 := mtmp89.(type) {
             case SExpr_Int:
-                ret414 = Nil{}
+                ret408 = Nil{}
             case SExpr_Bool:
-                ret414 = Nil{}
+                ret408 = Nil{}
             case SExpr_Sym:
                 var x92 string = mtmp89._0
                 var var__90 string = x92
-                var t281 SExpr = items__87[2]
-                var value__91 Value = eval(t281, local__88, global__89)
+                var t276 SExpr = items__87[2]
+                var value__91 Value = eval(t276, local__88, global__89)
                 var env__92 []Binding = ref_get__Ref_Vec_Binding(global__89)
-                var t282 Binding = Binding{
+                var t277 Binding = Binding{
                     name: var__90,
                     value: value__91,
                 }
-                var updated__93 []Binding = append(env__92, t282)
+                var updated__93 []Binding = append(env__92, t277)
                 ref_set__Ref_Vec_Binding(global__89, updated__93)
-                ret414 = value__91
+                ret408 = value__91
             case List:
-                ret414 = Nil{}
+                ret408 = Nil{}
             }
         case false:
-            ret414 = Nil{}
+            ret408 = Nil{}
         }
     case "if":
-        var t283 int32 = int32(len(items__87))
-        var mtmp95 bool = t283 == 4
+        var t278 int32 = int32(len(items__87))
+        var mtmp95 bool = t278 == 4
         switch mtmp95 {
         case true:
-            var t284 SExpr = items__87[1]
-            var cond__94 Value = eval(t284, local__88, global__89)
+            var t279 SExpr = items__87[1]
+            var cond__94 Value = eval(t279, local__88, global__89)
             var mtmp96 bool = truthy(cond__94)
             switch mtmp96 {
             case true:
-                var t285 SExpr = items__87[2]
-                ret414 = eval(t285, local__88, global__89)
+                var t280 SExpr = items__87[2]
+                ret408 = eval(t280, local__88, global__89)
             case false:
-                var t286 SExpr = items__87[3]
-                ret414 = eval(t286, local__88, global__89)
+                var t281 SExpr = items__87[3]
+                ret408 = eval(t281, local__88, global__89)
             }
         case false:
-            ret414 = Nil{}
+            ret408 = Nil{}
         }
     case "lambda":
-        var t287 int32 = int32(len(items__87))
-        var mtmp97 bool = t287 == 3
+        var t282 int32 = int32(len(items__87))
+        var mtmp97 bool = t282 == 3
         switch mtmp97 {
         case true:
             var mtmp98 SExpr = items__87[1]
             switch mtmp98 := mtmp98.(type) {
             case SExpr_Int:
-                ret414 = Nil{}
+                ret408 = Nil{}
             case SExpr_Bool:
-                ret414 = Nil{}
+                ret408 = Nil{}
             case SExpr_Sym:
-                ret414 = Nil{}
+                ret408 = Nil{}
             case List:
                 var x102 []SExpr = mtmp98._0
                 var params_exprs__95 []SExpr = x102
                 var params__96 []string = params_from_sexprs(params_exprs__95)
                 var body__97 SExpr = items__87[2]
-                var t288 Lambda = Lambda{
+                var t283 Lambda = Lambda{
                     params: params__96,
                     body: body__97,
                     env: local__88,
                     global: global__89,
                 }
-                ret414 = Func{
-                    _0: t288,
+                ret408 = Func{
+                    _0: t283,
                 }
             }
         case false:
-            ret414 = Nil{}
+            ret408 = Nil{}
         }
     case "+":
-        var t289 []Value = eval_args(items__87, 1, local__88, global__89)
-        ret414 = apply_builtin("+", t289)
+        var t284 []Value = eval_args(items__87, 1, local__88, global__89)
+        ret408 = apply_builtin("+", t284)
     case "-":
-        var t290 []Value = eval_args(items__87, 1, local__88, global__89)
-        ret414 = apply_builtin("-", t290)
+        var t285 []Value = eval_args(items__87, 1, local__88, global__89)
+        ret408 = apply_builtin("-", t285)
     case "*":
-        var t291 []Value = eval_args(items__87, 1, local__88, global__89)
-        ret414 = apply_builtin("*", t291)
+        var t286 []Value = eval_args(items__87, 1, local__88, global__89)
+        ret408 = apply_builtin("*", t286)
     case "/":
-        var t292 []Value = eval_args(items__87, 1, local__88, global__89)
-        ret414 = apply_builtin("/", t292)
+        var t287 []Value = eval_args(items__87, 1, local__88, global__89)
+        ret408 = apply_builtin("/", t287)
     case "=":
-        var t293 []Value = eval_args(items__87, 1, local__88, global__89)
-        ret414 = apply_builtin("=", t293)
+        var t288 []Value = eval_args(items__87, 1, local__88, global__89)
+        ret408 = apply_builtin("=", t288)
     default:
-        var t294 SExpr = SExpr_Sym{
+        var t289 SExpr = SExpr_Sym{
             _0: name__86,
         }
-        var f__98 Value = eval(t294, local__88, global__89)
+        var f__98 Value = eval(t289, local__88, global__89)
         var args__99 []Value = eval_args(items__87, 1, local__88, global__89)
-        ret414 = apply(f__98, args__99, global__89)
+        ret408 = apply(f__98, args__99, global__89)
     }
-    return ret414
+    return ret408
 }
 
 func eval_begin(items__100 []SExpr, start__101 int32, local__102 []Binding, global__103 *ref_vec_binding_x) Value {
-    var ret415 Value
+    var ret409 Value
     var i__104 *ref_int32_x = ref__Ref_int32(start__101)
-    var t295 Value = Nil{}
-    var last__105 *ref_value_x = ref__Ref_Value(t295)
-    var cond416 bool
+    var t290 Value = Nil{}
+    var last__105 *ref_value_x = ref__Ref_Value(t290)
+    var cond410 bool
     for {
-        var t296 int32 = ref_get__Ref_int32(i__104)
-        var t297 int32 = int32(len(items__100))
-        cond416 = t296 < t297
-        if !cond416 {
+        var t291 int32 = ref_get__Ref_int32(i__104)
+        var t292 int32 = int32(len(items__100))
+        cond410 = t291 < t292
+        if !cond410 {
             break
         }
-        var t299 int32 = ref_get__Ref_int32(i__104)
-        var t298 SExpr = items__100[t299]
-        var v__106 Value = eval(t298, local__102, global__103)
+        var t294 int32 = ref_get__Ref_int32(i__104)
+        var t293 SExpr = items__100[t294]
+        var v__106 Value = eval(t293, local__102, global__103)
         ref_set__Ref_Value(last__105, v__106)
-        var t301 int32 = ref_get__Ref_int32(i__104)
-        var t300 int32 = t301 + 1
-        ref_set__Ref_int32(i__104, t300)
+        var t296 int32 = ref_get__Ref_int32(i__104)
+        var t295 int32 = t296 + 1
+        ref_set__Ref_int32(i__104, t295)
     }
-    ret415 = ref_get__Ref_Value(last__105)
-    return ret415
+    ret409 = ref_get__Ref_Value(last__105)
+    return ret409
 }
 
 func params_from_sexprs(items__107 []SExpr) []string {
-    var ret417 []string
+    var ret411 []string
     var i__108 *ref_int32_x = ref__Ref_int32(0)
     var acc__109 []string = nil
     var params__110 *ref_vec_string_x = ref__Ref_Vec_string(acc__109)
-    var cond418 bool
+    var cond412 bool
     for {
-        var t302 int32 = ref_get__Ref_int32(i__108)
-        var t303 int32 = int32(len(items__107))
-        cond418 = t302 < t303
-        if !cond418 {
+        var t297 int32 = ref_get__Ref_int32(i__108)
+        var t298 int32 = int32(len(items__107))
+        cond412 = t297 < t298
+        if !cond412 {
             break
         }
-        var t304 int32 = ref_get__Ref_int32(i__108)
-        var mtmp105 SExpr = items__107[t304]
+        var t299 int32 = ref_get__Ref_int32(i__108)
+        var mtmp105 SExpr = items__107[t299]
         switch mtmp105 := mtmp105.(type) {
         case SExpr_Int:
-            var t306 int32 = ref_get__Ref_int32(i__108)
-            var t305 int32 = t306 + 1
-            ref_set__Ref_int32(i__108, t305)
+            var t301 int32 = ref_get__Ref_int32(i__108)
+            var t300 int32 = t301 + 1
+            ref_set__Ref_int32(i__108, t300)
         case SExpr_Bool:
-            var t308 int32 = ref_get__Ref_int32(i__108)
-            var t307 int32 = t308 + 1
-            ref_set__Ref_int32(i__108, t307)
+            var t303 int32 = ref_get__Ref_int32(i__108)
+            var t302 int32 = t303 + 1
+            ref_set__Ref_int32(i__108, t302)
         case SExpr_Sym:
             var x108 string = mtmp105._0
             var name__111 string = x108
-            var t310 []string = ref_get__Ref_Vec_string(params__110)
-            var t309 []string = append(t310, name__111)
-            ref_set__Ref_Vec_string(params__110, t309)
-            var t312 int32 = ref_get__Ref_int32(i__108)
-            var t311 int32 = t312 + 1
-            ref_set__Ref_int32(i__108, t311)
+            var t305 []string = ref_get__Ref_Vec_string(params__110)
+            var t304 []string = append(t305, name__111)
+            ref_set__Ref_Vec_string(params__110, t304)
+            var t307 int32 = ref_get__Ref_int32(i__108)
+            var t306 int32 = t307 + 1
+            ref_set__Ref_int32(i__108, t306)
         case List:
-            var t314 int32 = ref_get__Ref_int32(i__108)
-            var t313 int32 = t314 + 1
-            ref_set__Ref_int32(i__108, t313)
+            var t309 int32 = ref_get__Ref_int32(i__108)
+            var t308 int32 = t309 + 1
+            ref_set__Ref_int32(i__108, t308)
         }
     }
-    ret417 = ref_get__Ref_Vec_string(params__110)
-    return ret417
+    ret411 = ref_get__Ref_Vec_string(params__110)
+    return ret411
 }
 
 func eval_args(items__112 []SExpr, start__113 int32, local__114 []Binding, global__115 *ref_vec_binding_x) []Value {
-    var ret419 []Value
+    var ret413 []Value
     var i__116 *ref_int32_x = ref__Ref_int32(start__113)
     var acc__117 []Value = nil
     var args__118 *ref_vec_value_x = ref__Ref_Vec_Value(acc__117)
-    var cond420 bool
+    var cond414 bool
     for {
-        var t315 int32 = ref_get__Ref_int32(i__116)
-        var t316 int32 = int32(len(items__112))
-        cond420 = t315 < t316
-        if !cond420 {
+        var t310 int32 = ref_get__Ref_int32(i__116)
+        var t311 int32 = int32(len(items__112))
+        cond414 = t310 < t311
+        if !cond414 {
             break
         }
-        var t318 int32 = ref_get__Ref_int32(i__116)
-        var t317 SExpr = items__112[t318]
-        var v__119 Value = eval(t317, local__114, global__115)
-        var t320 []Value = ref_get__Ref_Vec_Value(args__118)
-        var t319 []Value = append(t320, v__119)
-        ref_set__Ref_Vec_Value(args__118, t319)
-        var t322 int32 = ref_get__Ref_int32(i__116)
-        var t321 int32 = t322 + 1
-        ref_set__Ref_int32(i__116, t321)
+        var t313 int32 = ref_get__Ref_int32(i__116)
+        var t312 SExpr = items__112[t313]
+        var v__119 Value = eval(t312, local__114, global__115)
+        var t315 []Value = ref_get__Ref_Vec_Value(args__118)
+        var t314 []Value = append(t315, v__119)
+        ref_set__Ref_Vec_Value(args__118, t314)
+        var t317 int32 = ref_get__Ref_int32(i__116)
+        var t316 int32 = t317 + 1
+        ref_set__Ref_int32(i__116, t316)
     }
-    ret419 = ref_get__Ref_Vec_Value(args__118)
-    return ret419
+    ret413 = ref_get__Ref_Vec_Value(args__118)
+    return ret413
 }
 
 func apply_builtin(name__120 string, args__121 []Value) Value {
-    var ret421 Value
+    var ret415 Value
     switch name__120 {
     case "=":
-        var t323 int32 = int32(len(args__121))
-        var mtmp114 bool = t323 == 2
+        var t318 int32 = int32(len(args__121))
+        var mtmp114 bool = t318 == 2
         switch mtmp114 {
         case true:
-            var t324 Value = args__121[0]
-            var t325 Value = args__121[1]
+            var t319 Value = args__121[0]
+            var t320 Value = args__121[1]
             var mtmp115 Tuple2_Value_Value = Tuple2_Value_Value{
-                _0: t324,
-                _1: t325,
+                _0: t319,
+                _1: t320,
             }
             var x116 Value = mtmp115._0
             var x117 Value = mtmp115._1
@@ -1202,20 +1217,20 @@ func apply_builtin(name__120 string, args__121 []Value) Value {
                     var x121 int32 = x116._0
                     var a__122 int32 = x121
                     var b__123 int32 = x118
-                    var t326 bool = a__122 == b__123
-                    ret421 = Value_Bool{
-                        _0: t326,
+                    var t321 bool = a__122 == b__123
+                    ret415 = Value_Bool{
+                        _0: t321,
                     }
                 case Value_Bool:
-                    ret421 = Value_Bool{
+                    ret415 = Value_Bool{
                         _0: false,
                     }
                 case Func:
-                    ret421 = Value_Bool{
+                    ret415 = Value_Bool{
                         _0: false,
                     }
                 case Nil:
-                    ret421 = Value_Bool{
+                    ret415 = Value_Bool{
                         _0: false,
                     }
                 }
@@ -1223,121 +1238,121 @@ func apply_builtin(name__120 string, args__121 []Value) Value {
                 var x119 bool = x117._0
                 switch x116 := x116.(type) {
                 case Value_Int:
-                    ret421 = Value_Bool{
+                    ret415 = Value_Bool{
                         _0: false,
                     }
                 case Value_Bool:
                     var x125 bool = x116._0
                     var a__124 bool = x125
                     var b__125 bool = x119
-                    var t327 bool = a__124 == b__125
-                    ret421 = Value_Bool{
-                        _0: t327,
+                    var t322 bool = a__124 == b__125
+                    ret415 = Value_Bool{
+                        _0: t322,
                     }
                 case Func:
-                    ret421 = Value_Bool{
+                    ret415 = Value_Bool{
                         _0: false,
                     }
                 case Nil:
-                    ret421 = Value_Bool{
+                    ret415 = Value_Bool{
                         _0: false,
                     }
                 }
             case Func:
-                ret421 = Value_Bool{
+                ret415 = Value_Bool{
                     _0: false,
                 }
             case Nil:
-                ret421 = Value_Bool{
+                ret415 = Value_Bool{
                     _0: false,
                 }
             }
         case false:
-            ret421 = Value_Bool{
+            ret415 = Value_Bool{
                 _0: false,
             }
         }
     case "+":
         var i__126 *ref_int32_x = ref__Ref_int32(0)
         var acc__127 *ref_int32_x = ref__Ref_int32(0)
-        var cond422 bool
+        var cond416 bool
         for {
-            var t328 int32 = ref_get__Ref_int32(i__126)
-            var t329 int32 = int32(len(args__121))
-            cond422 = t328 < t329
-            if !cond422 {
+            var t323 int32 = ref_get__Ref_int32(i__126)
+            var t324 int32 = int32(len(args__121))
+            cond416 = t323 < t324
+            if !cond416 {
                 break
             }
-            var t330 int32 = ref_get__Ref_int32(i__126)
-            var mtmp127 Value = args__121[t330]
+            var t325 int32 = ref_get__Ref_int32(i__126)
+            var mtmp127 Value = args__121[t325]
             switch mtmp127 := mtmp127.(type) {
             case Value_Int:
                 var x128 int32 = mtmp127._0
                 var n__128 int32 = x128
-                var t332 int32 = ref_get__Ref_int32(acc__127)
-                var t331 int32 = t332 + n__128
-                ref_set__Ref_int32(acc__127, t331)
-                var t334 int32 = ref_get__Ref_int32(i__126)
-                var t333 int32 = t334 + 1
-                ref_set__Ref_int32(i__126, t333)
+                var t327 int32 = ref_get__Ref_int32(acc__127)
+                var t326 int32 = t327 + n__128
+                ref_set__Ref_int32(acc__127, t326)
+                var t329 int32 = ref_get__Ref_int32(i__126)
+                var t328 int32 = t329 + 1
+                ref_set__Ref_int32(i__126, t328)
             case Value_Bool:
-                var t336 int32 = ref_get__Ref_int32(i__126)
-                var t335 int32 = t336 + 1
-                ref_set__Ref_int32(i__126, t335)
+                var t331 int32 = ref_get__Ref_int32(i__126)
+                var t330 int32 = t331 + 1
+                ref_set__Ref_int32(i__126, t330)
             case Func:
-                var t338 int32 = ref_get__Ref_int32(i__126)
-                var t337 int32 = t338 + 1
-                ref_set__Ref_int32(i__126, t337)
+                var t333 int32 = ref_get__Ref_int32(i__126)
+                var t332 int32 = t333 + 1
+                ref_set__Ref_int32(i__126, t332)
             case Nil:
-                var t340 int32 = ref_get__Ref_int32(i__126)
-                var t339 int32 = t340 + 1
-                ref_set__Ref_int32(i__126, t339)
+                var t335 int32 = ref_get__Ref_int32(i__126)
+                var t334 int32 = t335 + 1
+                ref_set__Ref_int32(i__126, t334)
             }
         }
-        var t341 int32 = ref_get__Ref_int32(acc__127)
-        ret421 = Value_Int{
-            _0: t341,
+        var t336 int32 = ref_get__Ref_int32(acc__127)
+        ret415 = Value_Int{
+            _0: t336,
         }
     case "*":
         var i__129 *ref_int32_x = ref__Ref_int32(0)
         var acc__130 *ref_int32_x = ref__Ref_int32(1)
-        var cond423 bool
+        var cond417 bool
         for {
-            var t342 int32 = ref_get__Ref_int32(i__129)
-            var t343 int32 = int32(len(args__121))
-            cond423 = t342 < t343
-            if !cond423 {
+            var t337 int32 = ref_get__Ref_int32(i__129)
+            var t338 int32 = int32(len(args__121))
+            cond417 = t337 < t338
+            if !cond417 {
                 break
             }
-            var t344 int32 = ref_get__Ref_int32(i__129)
-            var mtmp133 Value = args__121[t344]
+            var t339 int32 = ref_get__Ref_int32(i__129)
+            var mtmp133 Value = args__121[t339]
             switch mtmp133 := mtmp133.(type) {
             case Value_Int:
                 var x134 int32 = mtmp133._0
                 var n__131 int32 = x134
-                var t346 int32 = ref_get__Ref_int32(acc__130)
-                var t345 int32 = t346 * n__131
-                ref_set__Ref_int32(acc__130, t345)
-                var t348 int32 = ref_get__Ref_int32(i__129)
-                var t347 int32 = t348 + 1
-                ref_set__Ref_int32(i__129, t347)
+                var t341 int32 = ref_get__Ref_int32(acc__130)
+                var t340 int32 = t341 * n__131
+                ref_set__Ref_int32(acc__130, t340)
+                var t343 int32 = ref_get__Ref_int32(i__129)
+                var t342 int32 = t343 + 1
+                ref_set__Ref_int32(i__129, t342)
             case Value_Bool:
-                var t350 int32 = ref_get__Ref_int32(i__129)
-                var t349 int32 = t350 + 1
-                ref_set__Ref_int32(i__129, t349)
+                var t345 int32 = ref_get__Ref_int32(i__129)
+                var t344 int32 = t345 + 1
+                ref_set__Ref_int32(i__129, t344)
             case Func:
-                var t352 int32 = ref_get__Ref_int32(i__129)
-                var t351 int32 = t352 + 1
-                ref_set__Ref_int32(i__129, t351)
+                var t347 int32 = ref_get__Ref_int32(i__129)
+                var t346 int32 = t347 + 1
+                ref_set__Ref_int32(i__129, t346)
             case Nil:
-                var t354 int32 = ref_get__Ref_int32(i__129)
-                var t353 int32 = t354 + 1
-                ref_set__Ref_int32(i__129, t353)
+                var t349 int32 = ref_get__Ref_int32(i__129)
+                var t348 int32 = t349 + 1
+                ref_set__Ref_int32(i__129, t348)
             }
         }
-        var t355 int32 = ref_get__Ref_int32(acc__130)
-        ret421 = Value_Int{
-            _0: t355,
+        var t350 int32 = ref_get__Ref_int32(acc__130)
+        ret415 = Value_Int{
+            _0: t350,
         }
     case "-":
         var mtmp139 int32 = int32(len(args__121))
@@ -1348,23 +1363,23 @@ func apply_builtin(name__120 string, args__121 []Value) Value {
             case Value_Int:
                 var x141 int32 = mtmp140._0
                 var n__132 int32 = x141
-                var t356 int32 = 0 - n__132
-                ret421 = Value_Int{
-                    _0: t356,
+                var t351 int32 = 0 - n__132
+                ret415 = Value_Int{
+                    _0: t351,
                 }
             case Value_Bool:
-                ret421 = Nil{}
+                ret415 = Nil{}
             case Func:
-                ret421 = Nil{}
+                ret415 = Nil{}
             case Nil:
-                ret421 = Nil{}
+                ret415 = Nil{}
             }
         case 2:
-            var t357 Value = args__121[0]
-            var t358 Value = args__121[1]
+            var t352 Value = args__121[0]
+            var t353 Value = args__121[1]
             var mtmp144 Tuple2_Value_Value = Tuple2_Value_Value{
-                _0: t357,
-                _1: t358,
+                _0: t352,
+                _1: t353,
             }
             var x145 Value = mtmp144._0
             var x146 Value = mtmp144._1
@@ -1376,37 +1391,37 @@ func apply_builtin(name__120 string, args__121 []Value) Value {
                     var x150 int32 = x145._0
                     var a__133 int32 = x150
                     var b__134 int32 = x147
-                    var t359 int32 = a__133 - b__134
-                    ret421 = Value_Int{
-                        _0: t359,
+                    var t354 int32 = a__133 - b__134
+                    ret415 = Value_Int{
+                        _0: t354,
                     }
                 case Value_Bool:
-                    ret421 = Nil{}
+                    ret415 = Nil{}
                 case Func:
-                    ret421 = Nil{}
+                    ret415 = Nil{}
                 case Nil:
-                    ret421 = Nil{}
+                    ret415 = Nil{}
                 }
             case Value_Bool:
-                ret421 = Nil{}
+                ret415 = Nil{}
             case Func:
-                ret421 = Nil{}
+                ret415 = Nil{}
             case Nil:
-                ret421 = Nil{}
+                ret415 = Nil{}
             }
         default:
-            ret421 = Nil{}
+            ret415 = Nil{}
         }
     case "/":
-        var t360 int32 = int32(len(args__121))
-        var mtmp153 bool = t360 == 2
+        var t355 int32 = int32(len(args__121))
+        var mtmp153 bool = t355 == 2
         switch mtmp153 {
         case true:
-            var t361 Value = args__121[0]
-            var t362 Value = args__121[1]
+            var t356 Value = args__121[0]
+            var t357 Value = args__121[1]
             var mtmp154 Tuple2_Value_Value = Tuple2_Value_Value{
-                _0: t361,
-                _1: t362,
+                _0: t356,
+                _1: t357,
             }
             var x155 Value = mtmp154._0
             var x156 Value = mtmp154._1
@@ -1418,112 +1433,115 @@ func apply_builtin(name__120 string, args__121 []Value) Value {
                     var x160 int32 = x155._0
                     var a__135 int32 = x160
                     var b__136 int32 = x157
-                    var t363 int32 = a__135 / b__136
-                    ret421 = Value_Int{
-                        _0: t363,
+                    var t358 int32 = a__135 / b__136
+                    ret415 = Value_Int{
+                        _0: t358,
                     }
                 case Value_Bool:
-                    ret421 = Nil{}
+                    ret415 = Nil{}
                 case Func:
-                    ret421 = Nil{}
+                    ret415 = Nil{}
                 case Nil:
-                    ret421 = Nil{}
+                    ret415 = Nil{}
                 }
             case Value_Bool:
-                ret421 = Nil{}
+                ret415 = Nil{}
             case Func:
-                ret421 = Nil{}
+                ret415 = Nil{}
             case Nil:
-                ret421 = Nil{}
+                ret415 = Nil{}
             }
         case false:
-            ret421 = Nil{}
+            ret415 = Nil{}
         }
     default:
-        ret421 = Nil{}
+        ret415 = Nil{}
     }
-    return ret421
+    return ret415
 }
 
 func apply(func__137 Value, args__138 []Value, global__139 *ref_vec_binding_x) Value {
-    var ret424 Value
+    var ret418 Value
     switch func__137 := func__137.(type) {
     case Value_Int:
-        ret424 = Nil{}
+        ret418 = Nil{}
     case Value_Bool:
-        ret424 = Nil{}
+        ret418 = Nil{}
     case Func:
         var x165 Lambda = func__137._0
         var fun__140 Lambda = x165
-        ret424 = apply_lambda(fun__140, args__138)
+        ret418 = apply_lambda(fun__140, args__138)
     case Nil:
-        ret424 = Nil{}
+        ret418 = Nil{}
     }
-    return ret424
+    return ret418
 }
 
 func apply_lambda(lambda__141 Lambda, args__142 []Value) Value {
-    var ret425 Value
-    var t364 []Binding = lambda__141.env
-    var env__143 *ref_vec_binding_x = ref__Ref_Vec_Binding(t364)
+    var ret419 Value
+    var t359 []Binding = lambda__141.env
+    var env__143 *ref_vec_binding_x = ref__Ref_Vec_Binding(t359)
     var i__144 *ref_int32_x = ref__Ref_int32(0)
-    var cond426 bool
+    var cond420 bool
     for {
-        var t366 int32 = ref_get__Ref_int32(i__144)
-        var t368 []string = lambda__141.params
-        var t367 int32 = int32(len(t368))
-        var t365 bool = t366 < t367
-        var t370 int32 = ref_get__Ref_int32(i__144)
-        var t371 int32 = int32(len(args__142))
-        var t369 bool = t370 < t371
-        cond426 = t365 && t369
-        if !cond426 {
+        var t361 int32 = ref_get__Ref_int32(i__144)
+        var t363 []string = lambda__141.params
+        var t362 int32 = int32(len(t363))
+        var t360 bool = t361 < t362
+        if t360 {
+            var t364 int32 = ref_get__Ref_int32(i__144)
+            var t365 int32 = int32(len(args__142))
+            cond420 = t364 < t365
+        } else {
+            cond420 = false
+        }
+        if !cond420 {
             break
         }
-        var t372 []string = lambda__141.params
-        var t373 int32 = ref_get__Ref_int32(i__144)
-        var name__145 string = t372[t373]
-        var t374 int32 = ref_get__Ref_int32(i__144)
-        var value__146 Value = args__142[t374]
-        var t375 []Binding = ref_get__Ref_Vec_Binding(env__143)
-        var t376 Binding = Binding{
+        var t366 []string = lambda__141.params
+        var t367 int32 = ref_get__Ref_int32(i__144)
+        var name__145 string = t366[t367]
+        var t368 int32 = ref_get__Ref_int32(i__144)
+        var value__146 Value = args__142[t368]
+        var t369 []Binding = ref_get__Ref_Vec_Binding(env__143)
+        var t370 Binding = Binding{
             name: name__145,
             value: value__146,
         }
-        var updated__147 []Binding = append(t375, t376)
+        var updated__147 []Binding = append(t369, t370)
         ref_set__Ref_Vec_Binding(env__143, updated__147)
-        var t378 int32 = ref_get__Ref_int32(i__144)
-        var t377 int32 = t378 + 1
-        ref_set__Ref_int32(i__144, t377)
+        var t372 int32 = ref_get__Ref_int32(i__144)
+        var t371 int32 = t372 + 1
+        ref_set__Ref_int32(i__144, t371)
     }
-    var t379 SExpr = lambda__141.body
-    var t380 []Binding = ref_get__Ref_Vec_Binding(env__143)
-    var t381 *ref_vec_binding_x = lambda__141.global
-    ret425 = eval(t379, t380, t381)
-    return ret425
+    var t373 SExpr = lambda__141.body
+    var t374 []Binding = ref_get__Ref_Vec_Binding(env__143)
+    var t375 *ref_vec_binding_x = lambda__141.global
+    ret419 = eval(t373, t374, t375)
+    return ret419
 }
 
 func main0() struct{} {
-    var ret427 struct{}
-    var t382 []Binding = nil
-    var global__148 *ref_vec_binding_x = ref__Ref_Vec_Binding(t382)
+    var ret421 struct{}
+    var t376 []Binding = nil
+    var global__148 *ref_vec_binding_x = ref__Ref_Vec_Binding(t376)
     var program__149 string = "(begin (define fact (lambda (n) (if (= n 0) 1 (* n (fact (- n 1)))))) (define add3 (lambda (a b c) (+ a (+ b c)))) (fact 6))"
-    var t383 []Token = lex(program__149)
-    var exprs__150 []SExpr = parse_program(t383)
-    var t384 SExpr = exprs__150[0]
-    var t385 []Binding = nil
-    var result__151 Value = eval(t384, t385, global__148)
-    var t386 string = value_to_string(result__151)
-    string_println(t386)
-    var t387 []Token = lex("(add3 10 20 30)")
-    var exprs2__152 []SExpr = parse_program(t387)
-    var t388 SExpr = exprs2__152[0]
-    var t389 []Binding = nil
-    var result2__153 Value = eval(t388, t389, global__148)
-    var t390 string = value_to_string(result2__153)
-    string_println(t390)
-    ret427 = struct{}{}
-    return ret427
+    var t377 []Token = lex(program__149)
+    var exprs__150 []SExpr = parse_program(t377)
+    var t378 SExpr = exprs__150[0]
+    var t379 []Binding = nil
+    var result__151 Value = eval(t378, t379, global__148)
+    var t380 string = value_to_string(result__151)
+    string_println(t380)
+    var t381 []Token = lex("(add3 10 20 30)")
+    var exprs2__152 []SExpr = parse_program(t381)
+    var t382 SExpr = exprs2__152[0]
+    var t383 []Binding = nil
+    var result2__153 Value = eval(t382, t383, global__148)
+    var t384 string = value_to_string(result2__153)
+    string_println(t384)
+    ret421 = struct{}{}
+    return ret421
 }
 
 func main() {
